@@ -560,8 +560,14 @@ def is_setlike(node, setnames):
         if isinstance(f, ast.Attribute) and f.attr in ("keys", "values", "items"):
             return False
     if isinstance(node, ast.BinOp) and isinstance(node.op, (ast.BitOr, ast.BitAnd, ast.Sub, ast.BitXor)):
-        return is_setlike(node.left, setnames) or is_setlike(node.right, setnames)
+        # set algebra on dict views (`a.keys() - b.keys()`) yields a set as well
+        return any(is_setlike(x, setnames) or _is_dict_view(x) for x in (node.left, node.right))
     return False
+
+
+def _is_dict_view(node):
+    return (isinstance(node, ast.Call) and isinstance(node.func, ast.Attribute) and node.func.attr in ("keys", "items")
+            and not node.args)
 
 
 class SiteScanner(ast.NodeVisitor):
@@ -584,7 +590,16 @@ class SiteScanner(ast.NodeVisitor):
     def visit_FunctionDef(self, node):
         self.stack.append(node.name)
         self.origins.append({})
+        # local names bound to an unordered collection anywhere in this function
+        outer = self.setnames
+        local = set(outer)
+        for sub in ast.walk(node):
+            if isinstance(sub, ast.Assign) and len(sub.targets) == 1 and isinstance(sub.targets[0], ast.Name) \
+                    and is_setlike(sub.value, local):
+                local.add(sub.targets[0].id)
+        self.setnames = local
         self.generic_visit(node)
+        self.setnames = outer
         self.origins.pop()
         self.stack.pop()
 
